@@ -499,10 +499,11 @@ func c06LargeCheck(c *Case) []Violation {
 }
 
 // c06Widths: values whose decimal spellings have different widths (1, 2, 12, 21 and 0.5, 5, 0.55): every triple of profiles
-// over two criteria, with and without thresholds — all clauses of the metamorphic check (listing permutations included).
+// over two criteria (both gain, both cost, mixed), with and without thresholds — all clauses of the metamorphic check
+// (listing permutations included).
 func c06Widths(s *Shard) {
 	for _, vs := range [][]float64{{1, 2, 12, 21}, {0.5, 5, 0.55, 55}} {
-		Product([]int{4, 4, 4, 4, 4, 4, 2}, func(o []int) {
+		Product([]int{4, 4, 4, 4, 4, 4, 2, 3}, func(o []int) {
 			if !s.Take() {
 				return
 			}
@@ -511,7 +512,8 @@ func c06Widths(s *Shard) {
 			if o[6] == 1 {
 				th = []thr{{Q: 1, P: 5, V: 15}, {P: 8}}
 			}
-			cfg := eleCfg{N: 3, Vals: vals, Types: []string{"gain", "gain"}, Thr: th, K: []float64{2, 1}, Dist: eleDists[0]}
+			types := [][]string{{"gain", "gain"}, {"cost", "cost"}, {"cost", "gain"}}[o[7]]
+			cfg := eleCfg{N: 3, Vals: vals, Types: types, Thr: th, K: []float64{2, 1}, Dist: eleDists[0]}
 			c := &Case{Prop: "C06", Kind: "metamorphic", Params: M{"cfg": cfg}}
 			s.Evals++
 			s.Begin(c)
